@@ -55,7 +55,9 @@ type World struct {
 	Delay map[string]time.Duration
 	Gates map[string]chan struct{} // optional: a probe waits for its gate
 	ended map[string]chan struct{} // closed when the probe has returned for the first time
-	mu    sync.Mutex
+	// Intercept: a probe id handled by the harness itself (no begin / end events): e.g. a separator between two programs
+	Intercept map[string]func()
+	mu        sync.Mutex
 }
 
 // EndedCh returns a channel that is closed once probe id has ended.
@@ -111,6 +113,13 @@ func NewWorld(w io.Writer, input string, args []string) (*World, error) {
 			}
 			if err := ctx.Scope().InjectTo(&args); err != nil {
 				return err
+			}
+			wd.mu.Lock()
+			icpt := wd.Intercept[args.ID]
+			wd.mu.Unlock()
+			if icpt != nil {
+				icpt()
+				return nil
 			}
 			wd.Log.Emit(map[string]interface{}{"ev": "begin", "id": args.ID})
 			wd.mu.Lock()
